@@ -92,6 +92,7 @@ type hs13Case struct {
 	SilenceFrom  int         `json:"silence_from"`
 	SilenceUntil int64       `json:"silence_until"`
 	SilenceTo    string      `json:"silence_to"`
+	ReverseTo    string      `json:"reverse_to"`
 	MTU          int         `json:"mtu"`
 	Notes        []string    `json:"notes,omitempty"`
 }
@@ -102,6 +103,7 @@ type hs13Opt struct {
 	SilenceFrom  int           // datagrams with global index >= SilenceFrom ...
 	SilenceUntil time.Duration // ... emitted before this virtual time ...
 	SilenceTo    string        // ... and addressed to this side ("client", "server", "both") are dropped
+	ReverseTo    string        // every burst of datagrams towards this side ("client", "server", "both") arrives in reverse order
 	Limit        time.Duration
 }
 
@@ -266,7 +268,7 @@ func runHs13(t *testing.T, v c02Variant, mask []string, opt hs13Opt) hs13Case {
 	t.Helper()
 	res := hs13Case{
 		Kind: "hs13", Variant: v.Name, Mask: mask, Interval: opt.Interval.Milliseconds(), NoBackoff: opt.NoBackoff,
-		SilenceFrom: opt.SilenceFrom, SilenceUntil: opt.SilenceUntil.Milliseconds(), SilenceTo: opt.SilenceTo,
+		SilenceFrom: opt.SilenceFrom, SilenceUntil: opt.SilenceUntil.Milliseconds(), SilenceTo: opt.SilenceTo, ReverseTo: opt.ReverseTo,
 	}
 	if res.Interval == 0 {
 		res.Interval = 1000
@@ -312,8 +314,23 @@ func runHs13(t *testing.T, v c02Variant, mask []string, opt hs13Opt) hs13Case {
 		synctest.Wait()
 		logEmissions("timer")
 		progressed := false
-		for _, d := range lab.Net.since(next) {
-			next = d.Idx + 1
+		burst := lab.Net.since(next)
+		if opt.ReverseTo != "" {
+			// reverse, in place, the sub-sequence of the burst addressed to the chosen side(s)
+			var pos []int
+			for i, d := range burst {
+				if opt.ReverseTo == "both" || opt.ReverseTo == d.To {
+					pos = append(pos, i)
+				}
+			}
+			for i, j := 0, len(pos)-1; i < j; i, j = i+1, j-1 {
+				burst[pos[i]], burst[pos[j]] = burst[pos[j]], burst[pos[i]]
+			}
+		}
+		for _, d := range burst {
+			if d.Idx+1 > next {
+				next = d.Idx + 1
+			}
 			act := "pass"
 			if d.Idx < len(mask) {
 				act = mask[d.Idx]
